@@ -341,7 +341,7 @@ func cmdCheck(args []string) int {
 			}
 		}
 		if isKnown {
-			nDis++ // counted as accounted-for, listed separately in the evidence
+			nObl-- // not part of the proof claim: reported separately as a known finding
 			continue
 		}
 		violations++
@@ -406,6 +406,7 @@ func cmdCheck(args []string) int {
 		"samples":                  samples,
 		"undecided":                undecided,
 		"known_findings_seen":      knownSeen,
+		"known_finding_obligations": len(knownSeen),
 		"integer_semantics":        "Go machine integers: exact wrap-around in SMT Int (theory int) or bit-vectors of the Go width (theory bv); never mathematical",
 	}
 	if len(undecided) > 0 || nObl == 0 {
